@@ -40,8 +40,8 @@ def mobility(pvt, kr, p, So):
             + pvt["rho_w0"] * kr["krw"](So) / (pvt["mu_w"](p) * pvt["Bw"](p)))
 
 
-def _sym_env():
-    vs, dom = box(None, p=(15, 20000), So=(0, 1), Sw=(0, 1), phi=("0.001", 1), phi2=("0.001", 1), rho_o0=("0.1", 100),
+def _sym_env(int_p=False):
+    vs, dom = box(None, _integer=("p",) if int_p else (), p=(15, 20000), So=(0, 1), Sw=(0, 1), phi=("0.001", 1), phi2=("0.001", 1), rho_o0=("0.1", 100),
                   rho_g0=("0.001", 10), rho_w0=("0.1", 100))
     dom.append(T.b_le(P(vs["So"] + vs["Sw"]), T.ONE))
     pvt = {k: _uf(k) for k in PVT_FUNCS}
@@ -59,9 +59,11 @@ def _real_env(model):
     return m, pvt, kr
 
 
-def replay_c(model, mode="reference"):
+def replay_c(model, mode="reference", int_p=False):
     from bluebonnet.flow import flowproperties as fp
     m, pvt, kr = _real_env(model)
+    if int_p:
+        m["p"] = int(round(m["p"]))          # a pressure given as a Python int (whole psi)
     if mode == "constant":
         pvt.update({k: (lambda q, _v=float(pvt[k](m["p"] + 0.5)): _v) for k in PVT_FUNCS})
     got = float(fp.compressibility_combined_func(m["p"], m["So"], m["phi"], m["Sw"], pvt))
@@ -89,14 +91,16 @@ def replay_lambda(model, which="lambda"):
     return abs(al * c - lam) > 1e-9 * abs(lam), {"what": f"alpha_multiphase = {al!r} vs lambda/c = {lam / c if c else float('inf')!r}", "inputs": m}
 
 
-def job_storage(job):
+def job_storage(job, int_p=False):
     mod = _load()
     job.encoded(mod, "compressibility_combined_func", "lambda_combined_func", "alpha_multiphase")
     job.stub("PVT interpolators pvt[...] and rel-perm interpolators kr[...]: positive uninterpreted functions of "
              "their argument (the verdict covers every table)")
     job.assume_text("docs/background.md gas storage term S_g/b_o is read as S_g/B_g (documentation typo)")
     job.bound(multiphase="scalar state (p, So, Sw) with So+Sw<=1, porosity in [0.001,1], reference densities positive")
-    vs, dom, pvt, kr = _sym_env()
+    vs, dom, pvt, kr = _sym_env(int_p)
+    if int_p:
+        job.bound(pressure_kind="a Python int (whole psi)")
     p, So, Sw, phi = vs["p"], vs["So"], vs["Sw"], vs["phi"]
     Sg = 1 - So - Sw
     res = paths(job, lambda: (mod.compressibility_combined_func(p, So, phi, Sw, pvt),
@@ -113,8 +117,12 @@ def job_storage(job):
         tolb = T.p_mul(T.Poly.const(Fraction(1, 10**9)), P(scale))
         d = T.p_sub(P(c), P(want))
         neq = T.b_const(False) if d.is_zero() else T.b_or(T.b_lt(tolb, d), T.b_lt(tolb, T.p_neg(d)))
-        job.prove(f"c==difference of documented storage over +-0.5 psi[path{k}]", pr.pc + [neq], bound="any table",
-                  replay=(replay_c, {"mode": "reference"}))
+        itag = "[pressure a Python int]" if int_p else ""
+        job.prove(f"c==difference of documented storage over +-0.5 psi{itag}[path{k}]", pr.pc + [neq], bound="any table",
+                  replay=(replay_c, {"mode": "reference", "int_p": int_p}))
+        if int_p:
+            job.prove(f"reach{itag}[path{k}]", pr.pc, expect="sat")
+            continue
         # pressure-independent tables
         const = [T.b_eq(P(pvt[f](p + K("0.5"))), P(pvt[f](p - K("0.5")))) for f in ("Bo", "Bg", "Bw", "Rs", "Rv")]
         job.prove(f"c==0 for pressure-independent tables[path{k}]", pr.pc + const + [T.b_not(T.b_eq0(P(c)))], bound="any constant table",
@@ -127,6 +135,8 @@ def job_storage(job):
         job.prove(f"alpha*c==lambda[path{k}]", pr.pc + [T.b_not(T.b_eq0(P(c))), not_close(al * c, lam)], bound="any table, c != 0",
                   replay=(replay_lambda, {"which": "alpha"}))
         job.prove(f"reach[path{k}]", pr.pc, expect="sat")
+    if int_p:
+        return
     # translator validation with concrete callables
     import math
     from bluebonnet.flow import flowproperties as fp
@@ -272,7 +282,7 @@ FALLBACK = [(replay_c, {}), (replay_c, {"mode": "constant"}), (replay_c, {"mode"
 
 
 def jobs(tier):
-    out = [("storage", job_storage), ("tabulated-3-asc", lambda j: job_tabulated(j, 3, "ascending")),
+    out = [("storage", job_storage), ("storage-int-pressure", lambda j: job_storage(j, True)), ("tabulated-3-asc", lambda j: job_tabulated(j, 3, "ascending")),
            ("tabulated-3-desc", lambda j: job_tabulated(j, 3, "descending")), ("tabulated-3-asc-no-water", lambda j: job_tabulated(j, 3, "ascending", 1, True))]
     if tier != "quick":
         out += [("tabulated-4-asc", lambda j: job_tabulated(j, 4, "ascending", 2)), ("tabulated-4-desc", lambda j: job_tabulated(j, 4, "descending", 2))]
